@@ -195,6 +195,48 @@ def check_assumptions(pid):
     return rc == 0, closed, sorted(set(axioms)), out
 
 
+
+def run_coqchk(pid, files):
+    """Independent re-check (coqchk) of the property's compiled closure; thorough tier only.
+    Cached per hash of the .vo files, because one run takes 1-2 minutes."""
+    import hashlib
+    h = hashlib.sha256()
+    for f in files:
+        vo = os.path.join(COQ, f[:-2] + ".vo")
+        if not os.path.exists(vo):
+            return {"status": "not-run", "why": "missing " + vo}
+        h.update(open(vo, "rb").read())
+    key = h.hexdigest()[:24]
+    cdir = os.path.join(BUILD, "coqchk-cache")
+    os.makedirs(cdir, exist_ok=True)
+    cf = os.path.join(cdir, "%s-%s.json" % (pid, key))
+    if os.path.exists(cf):
+        r = json.load(open(cf))
+        r["cached"] = True
+        return r
+    t0 = time.time()
+    try:
+        p = subprocess.run(["coqchk", "-silent", "-o", "-Q", ".", "Verif", "Verif.Props.%s" % pid], cwd=COQ,
+                           stdout=subprocess.PIPE, stderr=subprocess.STDOUT, text=True, errors="replace", timeout=5400)
+        out, rc = p.stdout, p.returncode
+    except subprocess.TimeoutExpired:
+        return {"status": "timeout", "seconds": round(time.time() - t0, 1)}
+    summary = out[out.find("CONTEXT SUMMARY"):] if "CONTEXT SUMMARY" in out else out[-1500:]
+    def section(title):
+        m = re.search(r"\* %s:(.*?)(?=\n\* |\Z)" % re.escape(title), summary, re.S)
+        return " ".join(m.group(1).split()) if m else "?"
+    r = {"status": "ok" if rc == 0 else "failed", "rc": rc, "seconds": round(time.time() - t0, 1),
+         "cmd": "coqchk -silent -o -Q . Verif Verif.Props.%s" % pid,
+         "axioms": section("Axioms"),
+         "type_in_type": section("Constants/Inductives relying on type-in-type"),
+         "unsafe_fixpoints": section("Constants/Inductives relying on unsafe (co)fixpoints"),
+         "assumed_positivity": section("Inductives whose positivity is assumed"),
+         "tail": summary[-600:] if rc != 0 else ""}
+    if rc == 0:
+        json.dump(r, open(cf, "w"))
+    r["cached"] = False
+    return r
+
 def build_extract():
     """Extract the models and build build/modelrun (only when model.ml changed)."""
     ex = os.path.join(BUILD, "extract")
@@ -401,6 +443,14 @@ def run_check(pid, tier, seed):
             broken = {"file": vfile, "theorem": None, "message": a_out[-800:]}
     allowed_axioms = set(cfg.get("allowed_axioms", []))
     bad_axioms = [a for a in axioms if a not in allowed_axioms]
+    chk = None
+    if proof_ok and tier == "thorough" and os.environ.get("VERIF_NO_COQCHK") != "1":
+        chk = run_coqchk(pid, files)
+        clean = all(chk.get(k) == "<none>" for k in ("type_in_type", "unsafe_fixpoints", "assumed_positivity"))
+        chk_axioms_ok = chk.get("axioms") == "<none>" or bool(allowed_axioms)
+        if chk.get("status") == "failed" or (chk.get("status") == "ok" and not (clean and chk_axioms_ok)):
+            proof_ok = False
+            broken = {"file": vfile, "theorem": None, "message": "coqchk does not confirm the compiled proofs: %s" % json.dumps(chk)[:800]}
 
     # regenerated parts this property depends on
     regen_problems = []
@@ -532,6 +582,9 @@ def run_check(pid, tier, seed):
         "exhaustive": False,
     }
     coverage.update(extra_cov)
+    if chk is not None:
+        coverage["coqchk"] = chk
+        coverage["checker_cmd"] += " && " + chk.get("cmd", "coqchk")
     ev = {
         "property_id": pid,
         "tier": tier,
